@@ -193,7 +193,8 @@ def main():
     for i in r.get("inconclusive", []):
         if "solver undecided" not in i:
             inconclusive.append(i[:600])
-    if len(undecided) > max(2, 0.02 * max(1, r.get("programs", 0))):
+    # quick: 2 % of the programs; thorough (3 rows per table, much larger formulas): 5 %
+    if len(undecided) > max(2, (0.05 if tier == "thorough" else 0.02) * max(1, r.get("programs", 0))):
         inconclusive.append("%d programs undecided by the solvers within the time limit, e.g. %s" % (len(undecided), undecided[0][:300]))
     # violations vs known findings
     unlisted, known_hits = [], {}
